@@ -38,6 +38,8 @@ pub trait DObj: Send + Sync {
     fn set(&mut self, i: usize, v: f64);
     fn upd(&mut self, p: &[f64]);
     fn density(&self, x: f64) -> f64;
+    /// log-density (continuous laws; discrete laws have no such method and return a constant)
+    fn ln_density(&self, x: f64) -> f64;
     fn mean_var(&self) -> (f64, f64);
     fn draw(&self) -> f64;
     fn draw_n(&self, n: usize) -> Vec<f64>;
@@ -51,6 +53,7 @@ macro_rules! dobj {
             fn set(&mut self, i: usize, v: f64) { match i { $($i => { self.$setter(v as $cast); })* _ => unreachable!() } }
             fn upd(&mut self, p: &[f64]) { Distribution1D::update(self, p) }
             fn density(&self, x: f64) -> f64 { self.pdf(x) }
+            fn ln_density(&self, x: f64) -> f64 { self.ln_pdf(x) }
             fn mean_var(&self) -> (f64, f64) { (self.mean(), self.var()) }
             fn draw(&self) -> f64 { self.sample() }
             fn draw_n(&self, n: usize) -> Vec<f64> { self.sample_n(n).to_vec() }
@@ -63,6 +66,7 @@ macro_rules! dobj {
             fn set(&mut self, i: usize, v: f64) { match i { $($i => { self.$setter(v as $cast); })* _ => unreachable!() } }
             fn upd(&mut self, p: &[f64]) { Distribution1D::update(self, p) }
             fn density(&self, x: f64) -> f64 { self.pmf(x as i64) }
+            fn ln_density(&self, _x: f64) -> f64 { 0.0 }
             fn mean_var(&self) -> (f64, f64) { (self.mean(), self.var()) }
             fn draw(&self) -> f64 { self.sample() }
             fn draw_n(&self, n: usize) -> Vec<f64> { self.sample_n(n).to_vec() }
@@ -97,6 +101,29 @@ pub struct Law {
 
 pub fn laws() -> Vec<Law> {
     let mut v = laws_base();
+    {
+        // extreme values (valid or not is decided by each constructor; setters and updates must agree with it)
+        let extreme: Vec<(&str, Vec<Vec<f64>>)> = vec![
+            ("Normal", vec![vec![], vec![1e-300, 1e300]]),
+            ("Gamma", vec![vec![1e-17], vec![1e-17, 1e300]]),
+            ("Beta", vec![vec![1e-17], vec![]]),
+            ("T", vec![vec![1e-17, 1e300]]),
+            ("Pareto", vec![vec![1e-17], vec![1e-300]]),
+            ("Gumbel", vec![vec![], vec![1e-300]]),
+            ("Exponential", vec![vec![1e-17, 1e-300]]),
+            ("Uniform", vec![vec![-1e300], vec![1e300]]),
+            ("Poisson", vec![vec![1e-17, 1e-300]]),
+            ("Binomial", vec![vec![], vec![1e-300]]),
+            ("Bernoulli", vec![vec![1e-300, 5e-324]]),
+        ];
+        for (name, add) in extreme {
+            if let Some(l) = v.iter_mut().find(|l| l.name == name) {
+                for (i, a) in add.into_iter().enumerate() {
+                    l.lattice[i].extend(a);
+                }
+            }
+        }
+    }
     if thorough() {
         // denser lattices crossing every algorithm regime of the samplers and densities
         let extra: Vec<(&str, Vec<Vec<f64>>)> = vec![
@@ -163,6 +190,12 @@ pub fn observe(o: &dyn DObj, pts: &[f64]) -> Vec<u64> {
             Err(_) => 0xdead_0000_0000_0001,
         });
     }
+    for &x in pts {
+        v.push(match guard(|| o.ln_density(x)) {
+            Ok(d) => bits(d),
+            Err(_) => 0xdead_0000_0000_0005,
+        });
+    }
     match guard(|| o.mean_var()) {
         Ok((m, s)) => {
             v.push(bits(m));
@@ -189,12 +222,14 @@ fn describe_diff(a: &[u64], b: &[u64], npts: usize) -> String {
         if a[i] != b[i] {
             let what = if i < npts {
                 format!("density at lattice point #{}", i)
-            } else if i == npts {
+            } else if i < 2 * npts {
+                format!("log-density at lattice point #{}", i - npts)
+            } else if i == 2 * npts {
                 "mean".to_string()
-            } else if i == npts + 1 {
+            } else if i == 2 * npts + 1 {
                 "variance".to_string()
             } else {
-                let k = i - npts - 2;
+                let k = i - 2 * npts - 2;
                 format!("sample #{} after set_seed({})", k % nsamp(), seeds()[k / nsamp()])
             };
             return format!("{}: object {:e} vs fresh twin {:e}", what, f64::from_bits(a[i]), f64::from_bits(b[i]));
@@ -390,7 +425,8 @@ fn explore_law(run: &'static Run, law: Arc<Law>) {
         if a != b {
             run.outcome(&(law.name, "differs"));
             let i = a.iter().zip(&b).position(|(x, y)| x != y).unwrap();
-            let part = if i < law.points.len() { "density" } else if i < law.points.len() + 2 { "moments" } else { "seeded-stream" };
+            let np = law.points.len();
+            let part = if i < np { "density" } else if i < 2 * np { "log-density" } else if i < 2 * np + 2 { "moments" } else { "seeded-stream" };
             run.violate(&format!("{}/twin-differs/{}", law.name, part), || format!("after {:?} the object {} differs from {}::new({:?}): {}", pathf().iter().map(|o| o.show(law)).collect::<Vec<_>>(), s.key, law.name, s.params, describe_diff(&a, &b, law.points.len())));
         } else {
             run.outcome(&(law.name, "same", s.model.len()));
